@@ -312,6 +312,8 @@ func init() {
 			c.Emit("@let "+p.Name+" "+tables, "let")
 			c.Emit(fmt.Sprintf("lr.validate %d %d | %s | $%s | %s", len(g.Terminals), len(g.Rules), grammarLine(g), p.Name, certLine(fr.Table)), "ok")
 			c.Count("validated")
+			// premises of the termination theorem for runs with recovery
+			c.Emit(fmt.Sprintf("lr.recovery_ok %d | $%s", len(fr.Table.States), p.Name), "ok")
 			if s.UsesError() {
 				c.Count("grammars-with-@error")
 			}
